@@ -7,8 +7,8 @@ what="$1"; shift
 wt=$(mktemp -d /tmp/rtfwt.XXXXXX)
 case "$what" in
   rev:*) git -C /repo worktree add -q --detach "$wt" "${what#rev:}" || exit 2 ;;
-  *) git -C /repo worktree add -q --detach "$wt" HEAD || exit 2
-     git -C "$wt" apply "$what" || { echo "patch does not apply"; git -C /repo worktree remove --force "$wt"; exit 2; } ;;
+  *) git -C /repo worktree add -q --detach "$wt" "${BASE:-HEAD}" || exit 2
+     git -C "$wt" apply "$what" 2>/dev/null || git -C "$wt" apply --3way "$what" || { echo "patch does not apply"; git -C /repo worktree remove --force "$wt"; exit 2; } ;;
 esac
 cd "$(dirname "$0")/.." || exit 2
 rc=0
